@@ -58,8 +58,13 @@ def build(kinds, deps):
                 jn = name_of(kinds, j)
                 sym = jn if kinds[j] == 'const' else jn + 'V'
                 base = values[jn]
-                form = (i + idx) % 4
-                if form == 1:
+                form = (i + idx + j) % 6
+                if form == 4:
+                    # the expression starts with a literal
+                    expr, val = '2*%s' % sym if idx == 0 else '%s + 2*%s' % (expr, sym), (base * 2 if idx == 0 else val + base * 2)
+                elif form == 5:
+                    expr, val = '1 + %s' % sym if idx == 0 else '%s + %s' % (expr, sym), (base + 1 if idx == 0 else val + base)
+                elif form == 1:
                     expr, val = '%s*2' % sym if idx == 0 else '%s + %s*2' % (expr, sym), (base * 2 if idx == 0 else val + base * 2)
                 elif form == 2:
                     term, tv = 'shiftLeft(%s, 1)' % sym, base * 2
@@ -77,7 +82,10 @@ def build(kinds, deps):
             for idx, j in enumerate(deps[i]):
                 jn = name_of(kinds, j)
                 sym = jn if kinds[j] == 'const' else jn + 'V'
-                expr, val = ('%s + 1' % sym, values[jn] + 1) if idx == 0 else ('%s + %s' % (expr, sym), val + values[jn])
+                if (i + j) % 3 == 2 and idx == 0:
+                    expr, val = '1 + %s' % sym, values[jn] + 1          # literal first
+                else:
+                    expr, val = ('%s + 1' % sym, values[jn] + 1) if idx == 0 else ('%s + %s' % (expr, sym), val + values[jn])
             values[name] = val
             defs.append(S.Enum(name, [(name + 'V', val)]))
             xml.append('<enum name="%s"><enum-member name="%sV" value="%s"/></enum>' % (name, name, expr))
